@@ -155,7 +155,8 @@ fn run_check(ctx: &Ctx) -> i32 {
     };
     println!("== {} {} seed={} workers={}", ctx.id, ctx.tier.name(), ctx.seed, ctx.workers);
     // 0. reference self-tests (trusted base)
-    if let Err(e) = props::selftest(ctx, false) {
+    let full = ctx.tier == Tier::Thorough && matches!(ctx.id.as_str(), "C05" | "C06" | "C07" | "C09");
+    if let Err(e) = props::selftest(ctx, full) {
         println!("INCONCLUSIVE reference self-test failed: {}", e);
         return 2;
     }
